@@ -8,7 +8,7 @@ import json
 import os
 from copy import copy
 
-from harness import core
+from harness import core, gen
 from harness.catalogue import harvest, struct
 
 
@@ -86,7 +86,7 @@ def observe(buf, built, expect_values=None):
     from okdmr.dmrlib.motorola.mbxml import MBXML
     r = {"buf": list(buf), "built": built, "err": "", "ndocs": 0, "ids": [], "tokens": [], "reser": [], "values_equal": True}
     try:
-        docs = MBXML.from_bytes(bytes(buf))
+        docs = MBXML.from_bytes(gen.as_caller_bytes(bytes(buf), len(buf)))
         r["ndocs"] = len(docs)
         r["ids"] = [d.id.value[0] for d in docs]
         r["tokens"] = [[p.token_id for p in d.parts] for d in docs]
